@@ -72,7 +72,79 @@ fn one(id: u64, items: &[String], pat: &str, threads: usize) -> String {
     out
 }
 
-pub fn run(tier: &str, seed: u64, shards: usize, outdir: &str) {
+/// Fast typing over a big item set: every edit cancels the run in flight (often in the middle of the parallel sort);
+/// every snapshot the UI gets to see is recorded and must be the complete, uniquely ordered result of its pattern.
+fn stress(id0: &mut u64, items: &[String], threads: usize, rounds: usize, rng: &mut StdRng, emit: &mut dyn FnMut(u64, String)) {
+    let pats = ["a", "ab", "b", "ba", "!x", "a b", "x"];
+    let parsed: Vec<Pattern> = pats.iter().map(|p| Pattern::parse(p, CaseMatching::Smart, Normalization::Smart)).collect();
+    let keys: Vec<String> = parsed.iter().map(|p| format!("{:?}", p.atoms)).collect();
+    let mut m = Matcher::new(Config::DEFAULT);
+    let hays: Vec<Utf32String> = items.iter().map(|s| Utf32String::from(s.as_str())).collect();
+    let tables: Vec<Vec<i64>> = parsed.iter().map(|p| hays.iter().map(|h| p.score(h.slice(..), &mut m).map_or(-1, |s| s as i64)).collect()).collect();
+    let mut nucleo: Nucleo<String> = Nucleo::new(Config::DEFAULT, Arc::new(|| {}), Some(threads), 1);
+    let inj = nucleo.injector();
+    inj.extend(items.iter().cloned().collect::<Vec<_>>().into_iter(), |s, cols| cols[0] = s.as_str().into());
+    let mut capture = |nucleo: &Nucleo<String>, emit: &mut dyn FnMut(u64, String), id0: &mut u64| {
+        let snap = nucleo.snapshot();
+        let key = format!("{:?}", snap.pattern().column_pattern(0).atoms);
+        let Some(pi) = keys.iter().position(|k| *k == key) else { return };
+        if pats[pi].is_empty() {
+            return;
+        }
+        *id0 += 1;
+        let mut out = String::new();
+        let _ = write!(out, "{{\"id\":{},\"threads\":{},\"n\":{},\"pattern\":{:?},\"items\":[", *id0, threads, items.len(), pats[pi]);
+        for (k, h) in hays.iter().enumerate() {
+            if k > 0 {
+                out.push(',');
+            }
+            let _ = write!(out, "[{},{}]", h.len(), tables[pi][k]);
+        }
+        let _ = write!(out, "],\"panic\":false,\"stuck\":false,\"count\":{},\"matches\":[", snap.item_count());
+        for (k, mm) in snap.matches().iter().enumerate() {
+            if k > 0 {
+                out.push(',');
+            }
+            let _ = write!(out, "[{},{}]", if mm.idx == u32::MAX { -1 } else { mm.idx as i64 }, mm.score);
+        }
+        out.push_str("]}");
+        emit(*id0, out);
+    };
+    for _ in 0..rounds {
+        let p = rng.gen_range(0..pats.len());
+        nucleo.pattern.reparse(0, pats[p], CaseMatching::Smart, Normalization::Smart, false);
+        let st = nucleo.tick(0);
+        if st.changed {
+            capture(&nucleo, emit, id0);
+        }
+        // let the run get somewhere (scan, rescoring or sort) before the next edit cancels it
+        let spin = rng.gen_range(0..3000u32);
+        for _ in 0..spin {
+            std::hint::spin_loop();
+        }
+        if rng.gen_bool(0.7) {
+            // sometimes long enough for the run to finish, mostly long enough to be in its sort when the next edit comes
+            std::thread::sleep(std::time::Duration::from_micros(rng.gen_range(50..6000)));
+            let st = nucleo.tick(0);
+            if st.changed {
+                capture(&nucleo, emit, id0);
+            }
+        }
+    }
+    let mut guard = 0;
+    loop {
+        let st = nucleo.tick(20);
+        if st.changed {
+            capture(&nucleo, emit, id0);
+        }
+        guard += 1;
+        if !st.running || guard > 2000 {
+            break;
+        }
+    }
+}
+
+pub fn run(tier: &str, seed: u64, shards: usize, outdir: &str, stress_only: bool) {
     std::fs::create_dir_all(outdir).unwrap();
     let thorough = tier == "thorough";
     std::panic::set_hook(Box::new(|_| {}));
@@ -85,7 +157,7 @@ pub fn run(tier: &str, seed: u64, shards: usize, outdir: &str) {
         sizes.extend([5, 19, 100, 500, 3000, 10000]);
     }
     let mut id = 0u64;
-    for n in sizes {
+    for n in if stress_only { Vec::new() } else { sizes } {
         let sets = if n <= 64 { 3 } else { 1 };
         for _ in 0..sets {
             let items = gen_items(n, &mut rng);
@@ -96,6 +168,12 @@ pub fn run(tier: &str, seed: u64, shards: usize, outdir: &str) {
                 }
             }
         }
+    }
+    // fast typing over a big item set: snapshots taken while runs are being cancelled
+    let big = gen_items(if thorough { 60000 } else { 20000 }, &mut rng);
+    for threads in [2usize, 4, 8] {
+        let mut emit = |rid: u64, rec: String| writeln!(files[(rid as usize) % shards], "{}", rec).unwrap();
+        stress(&mut id, &big, threads, if thorough { 120 } else { 30 }, &mut rng, &mut emit);
     }
     for f in files.iter_mut() {
         f.flush().unwrap();
